@@ -5,10 +5,16 @@ C06 — `records_per_chunk` never changes what is read, only how.
   is the same for any two positive `records_per_chunk`.
 * `data_rpc_independent`     — for any image and key, the selected data are the same for any two positive
   chunk sizes (both equal NumPy indexing of the loaded image, C02).
+* `image_rpc_independent`    — the same on the LAYOUT-based model of the reader (`Model/Product.lean`: the record layouts
+  regenerated from the source interpreted chunk by chunk): for a well-framed image two successful opens with any two chunk
+  sizes return the same header, the same line records (values and rebased addresses), the same image group and the same array
+  metadata except the chunk size itself; rests on `record_window` — a line record, once its addresses are rebased to zero,
+  depends only on the bytes of its own prefix window (translation invariance of the layout interpreter on these layouts).
 * `preferred_chunksize`      — the only permitted difference: the advertised chunk size is `min rpc n`.
 -/
 import Alos2.Proofs.Geometry
 import Alos2.Props.C02
+import Alos2.Proofs.RpcIndep
 
 namespace Alos2.C06
 
@@ -23,6 +29,29 @@ theorem data_rpc_independent (img : Image) (full : List (List Bytes)) (h : C02.L
   have e₁ := C02.getitem_eq_np { img with rpc := r₁ } full ⟨h.load, h.rect⟩ h₁ k0 k1
   have e₂ := C02.getitem_eq_np { img with rpc := r₂ } full ⟨h.load, h.rect⟩ h₂ k0 k1
   rw [e₁, e₂]
+
+theorem record_window (ctx ctx' : Ctx) (bs bs' : Bytes) (pos pos' : Nat) (v v' : Val) (e e' : Nat) :
+    (parse Gen.signalDataRecord ctx bs pos = .ok (v, e) → parse Gen.signalDataRecord ctx' bs' pos' = .ok (v', e') →
+      slice bs pos (pos + 544) = slice bs' pos' (pos' + 544) → adjustOffset (-(pos : Int)) v = adjustOffset (-(pos' : Int)) v') ∧
+    (parse Gen.processedDataRecord ctx bs pos = .ok (v, e) → parse Gen.processedDataRecord ctx' bs' pos' = .ok (v', e') →
+      slice bs pos (pos + 192) = slice bs' pos' (pos' + 192) → adjustOffset (-(pos : Int)) v = adjustOffset (-(pos' : Int)) v') :=
+  ⟨signal_record_window ctx ctx' bs bs' pos pos' v v' e e', processed_record_window ctx ctx' bs bs' pos pos' v v' e e'⟩
+
+theorem image_rpc_independent (file : Bytes) (name : String) (rpc1 rpc2 : Nat)
+    (n1 n2 : String) (g1 g2 : ImageGroup)
+    (h1 : openImageFile file name rpc1 = .ok (n1, g1)) (h2 : openImageFile file name rpc2 = .ok (n2, g2))
+    (hd1 hd2 : Val) (recs1 recs2 : List Val)
+    (hr1 : readImageRecords file rpc1 = .ok (hd1, recs1)) (hr2 : readImageRecords file rpc2 = .ok (hd2, recs2))
+    (L : Nat) (hL : 0 < L) (hdrL : intAt hd1 ["sar_data_record_length"] = .ok (L : Int))
+    (t : Nat) (ht : t = 10 ∨ t = 11)
+    (hrl1 : ∀ r ∈ recs1, intAt r ["preamble", "record_length"] = .ok (L : Int))
+    (hty1 : ∀ r ∈ recs1, intAt r ["preamble", "record_type"] = .ok (t : Int))
+    (hrl2 : ∀ r ∈ recs2, intAt r ["preamble", "record_length"] = .ok (L : Int))
+    (hty2 : ∀ r ∈ recs2, intAt r ["preamble", "record_type"] = .ok (t : Int)) :
+    hd1 = hd2 ∧ recs1 = recs2 ∧ n1 = n2 ∧ g1.group = g2.group ∧ g1.array = { g2.array with rpc := rpc1 } := by
+  obtain ⟨a, b⟩ := readImageRecords_rpc_independent file rpc1 rpc2 hd1 hd2 recs1 recs2 hr1 hr2 L hL hdrL t ht hrl1 hty1 hrl2 hty2
+  obtain ⟨c, d, e⟩ := openImageFile_rpc_independent file name rpc1 rpc2 n1 n2 g1 g2 h1 h2 hd1 hd2 recs1 recs2 hr1 hr2 L hL hdrL t ht hrl1 hty1 hrl2 hty2
+  exact ⟨a, b, c, d, e⟩
 
 theorem preferred_chunksize (rpc n : Nat) : normalizeChunksize rpc n = min rpc n :=
   normalizeChunksize_eq_min rpc n
